@@ -276,16 +276,7 @@ func (fox *Router) Has(method, pattern string) bool {
 // mutation on route are ongoing. See also [Router.Has] as an alternative.
 func (fox *Router) Route(method, pattern string) *Route {
 	tree := fox.getRoot()
-	c := tree.ctx.Get().(*cTx)
-	c.resetNil()
-
-	host, path := SplitHostPath(pattern)
-	n, tsr := tree.lookup(method, host, path, c, true)
-	tree.ctx.Put(c)
-	if n != nil && !tsr && n.route.pattern == pattern {
-		return n.route
-	}
-	return nil
+	return tree.root.route(method, pattern)
 }
 
 // Reverse perform a reverse lookup for the given method, host and path and return the matching registered [Route]
